@@ -1,4 +1,5 @@
 import RpmVerif.Model.FromEntries
+import RpmVerif.Gen.DepCtors
 /-!
 # L7: the builder — model of `PackageBuilder::{prepare_data, build}` and `SignatureHeaderBuilder`
 
@@ -111,6 +112,13 @@ def depEq (name version : Bytes) : Dep := ⟨name, DependencyFlags.EQUAL, versio
 /-- `Dependency::user` / `group` -/
 def depUser (u : Bytes) : Dep := ⟨[117, 115, 101, 114, 40] ++ u ++ [41], DependencyFlags.SCRIPT_PRE ||| DependencyFlags.SCRIPT_POSTUN, []⟩
 def depGroup (g : Bytes) : Dep := ⟨[103, 114, 111, 117, 112, 40] ++ g ++ [41], DependencyFlags.SCRIPT_PRE ||| DependencyFlags.SCRIPT_POSTUN, []⟩
+
+/-- the public constructors of `Dependency` (`any`, `eq`, `less`, … `script_postun`; src/rpm/headers/types.rs): the `k`-th
+`pub fn` of `impl Dependency` applied to a name and a version argument (constructors without a version parameter ignore
+`version`). The rows — fixed text around the name, flags, fixed version — are regenerated from the source on every run
+(`Gen.depCtors`, tools/gen/dep_ctors.py); `none` when there is no `k`-th constructor. -/
+def depCtor (k : Nat) (name version : Bytes) : Option Dep :=
+  depCtors[k]?.map fun s => ⟨s.pre ++ name ++ s.post, s.flags, s.version.getD version⟩
 
 def Comp.name : Comp → Option (Bytes × Bytes)
   | .none => Option.none
